@@ -1,6 +1,7 @@
 pub mod auth;
 pub mod c03;
 pub mod c05;
+pub mod c06;
 pub mod c09;
 pub mod c10;
 pub mod c11;
